@@ -25,6 +25,17 @@ func Register() {
 
 type ctxKey struct{}
 
+// OnEvent, when set, is called at every statement boundary of every connection of this driver:
+// before and after each Exec / Query, before and after each Commit (kind = "pre" | "post"). The crash family
+// uses it to SIGKILL the process at an exact statement boundary.
+var OnEvent func(kind, what string)
+
+func event(kind, what string) {
+	if f := OnEvent; f != nil {
+		f(kind, what)
+	}
+}
+
 // Gate is the per-client control block.
 type Gate struct {
 	blockNext bool   // park before the next statement
@@ -95,7 +106,9 @@ func (c *conn) ExecContext(ctx context.Context, query string, args []driver.Name
 	if g != nil {
 		cls = g.before()
 	}
+	event("pre", query)
 	res, err := c.Conn.(driver.ExecerContext).ExecContext(ctx, query, args)
+	event("post", query)
 	if g != nil {
 		rows := int64(-1)
 		if err == nil && res != nil {
@@ -112,7 +125,9 @@ func (c *conn) QueryContext(ctx context.Context, query string, args []driver.Nam
 	if g != nil {
 		cls = g.before()
 	}
+	event("pre", query)
 	rows, err := c.Conn.(driver.QueryerContext).QueryContext(ctx, query, args)
+	event("post", query)
 	if g != nil {
 		g.after(query, false, -1, cls)
 	}
@@ -130,7 +145,7 @@ func (c *conn) BeginTx(ctx context.Context, opts driver.TxOptions) (driver.Tx, e
 	}
 	g := gateOf(ctx)
 	if g == nil {
-		return t, nil
+		g = &Gate{} // no client gate: the wrapper only reports the commit boundaries
 	}
 	g.inTx = true
 	return &tx{Tx: t, g: g}, nil
@@ -149,7 +164,13 @@ func (t *tx) end() {
 	}
 }
 
-func (t *tx) Commit() error   { err := t.Tx.Commit(); t.end(); return err }
+func (t *tx) Commit() error {
+	event("pre", "COMMIT")
+	err := t.Tx.Commit()
+	event("post", "COMMIT")
+	t.end()
+	return err
+}
 func (t *tx) Rollback() error { err := t.Tx.Rollback(); t.end(); return err }
 
 func (c *conn) Ping(ctx context.Context) error {
